@@ -124,6 +124,36 @@ LetterAgrees(code, ch, verdict) ==
 SxValidateAgrees(code, verdict) ==
   (verdict = "yes" => code = <<"v">>) /\ (verdict = "no" => code # <<"v">>)
 
+\* Variable space: 'l' / 'u' cover the variable bounds and the lower / upper side of the inequality rows,
+\* 'e' the equality rows (mass balances, user equalities, variables fixed at a non-zero value).
+IsIneq(u) == u.lo < u.hi
+UserRowVal(X, u, w) == SxDot(VarCoef(X, u.coef, u.zc), w)
+UserSlack(u) == 2 * SxAbsSum(u.coef) + Abs(u.zc)
+SxVarOwnLower(X, w) ==
+  UNION {{SxJudge(w[2 * r - 1], FwdLo(X.M, r) * SxScale, SxBig, 1), SxJudge(w[2 * r], RevLo(X.M, r) * SxScale, SxBig, 1)} : r \in RIdx(X.M)}
+  \cup (IF X.hasz THEN {SxJudge(ZOf(X, w), X.zb[1] * SxScale, SxBig, 1)} ELSE {})
+SxVarOwnUpper(X, w) ==
+  UNION {{SxJudge(w[2 * r - 1], -SxBig, FwdHi(X.M, r) * SxScale, 1), SxJudge(w[2 * r], -SxBig, RevHi(X.M, r) * SxScale, 1)} : r \in RIdx(X.M)}
+  \cup (IF X.hasz THEN {SxJudge(ZOf(X, w), -SxBig, X.zb[2] * SxScale, 1)} ELSE {})
+SxVarIneqLower(X, w) == {SxJudge(UserRowVal(X, X.U[i], w), X.U[i].lo * SxScale, SxBig, UserSlack(X.U[i])) : i \in {k \in 1..Len(X.U) : IsIneq(X.U[k])}}
+SxVarIneqUpper(X, w) == {SxJudge(UserRowVal(X, X.U[i], w), -SxBig, X.U[i].hi * SxScale, UserSlack(X.U[i])) : i \in {k \in 1..Len(X.U) : IsIneq(X.U[k])}}
+SxVarEqs(X, w) ==
+  SxVarBalance(X, w)
+  \cup {SxJudge(UserRowVal(X, X.U[i], w), X.U[i].lo * SxScale, X.U[i].hi * SxScale, UserSlack(X.U[i])) : i \in {k \in 1..Len(X.U) : ~IsIneq(X.U[k])}}
+  \cup UNION {(IF FwdLo(X.M, r) = FwdHi(X.M, r) /\ FwdLo(X.M, r) # 0
+               THEN {SxJudge(w[2 * r - 1], FwdLo(X.M, r) * SxScale, FwdHi(X.M, r) * SxScale, 1)} ELSE {})
+              \cup (IF RevLo(X.M, r) = RevHi(X.M, r) /\ RevLo(X.M, r) # 0
+                    THEN {SxJudge(w[2 * r], RevLo(X.M, r) * SxScale, RevHi(X.M, r) * SxScale, 1)} ELSE {}) : r \in RIdx(X.M)}
+  \cup (IF X.hasz /\ X.zb[1] = X.zb[2] /\ X.zb[1] # 0 THEN {SxJudge(ZOf(X, w), X.zb[1] * SxScale, X.zb[2] * SxScale, 1)} ELSE {})
+\* The letters a validate() would give if the inequality-row errors of one row were replaced by the
+\* MINIMUM over the whole batch B (set of rows) -- the signature of taking the minimum along the wrong
+\* axis.  Exact on integer points (no "edge").
+SxBatchMinLetters(X, w, B) ==
+  LET l == SxSome(SxVarOwnLower(X, w)) = "yes" \/ \E b \in B : SxSome(SxVarIneqLower(X, b)) = "yes"
+      u == SxSome(SxVarOwnUpper(X, w)) = "yes" \/ \E b \in B : SxSome(SxVarIneqUpper(X, b)) = "yes"
+      e == SxSome(SxVarEqs(X, w)) = "yes" IN
+  IF ~l /\ ~u /\ ~e THEN {"v"} ELSE (IF l THEN {"l"} ELSE {}) \cup (IF u THEN {"u"} ELSE {}) \cup (IF e THEN {"e"} ELSE {})
+
 \* ---------------------------------------------------------------- counts, columns
 SxRowCount(method, n, P) == IF method = "optgp" /\ P > 1 THEN P * ((n + P - 1) \div P) ELSE n
 SxColumns(X, fluxes) ==
@@ -151,16 +181,29 @@ SxHomogeneous(X) ==
   /\ \A r \in RIdx(X.M) : X.M.lb[r] = X.M.ub[r] => X.M.lb[r] = 0
   /\ \A i \in 1..Len(X.U) : X.U[i].lo = X.U[i].hi => X.U[i].lo = 0
   /\ X.hasz => (X.zb[1] = X.zb[2] => X.zb[1] = 0)
-\* the lattice dimension is the polytope's dimension when the polytope is integral (no user rows);
-\* with user rows it is a lower bound
-SxIntegral(X) == IsUnitNetwork(X.M) /\ Len(X.U) = 0
-\* documented refusals (ValueError): a single point; a line segment of an inhomogeneous problem.
-\* "yes": the refusal is the documented outcome;  "no": the flux space surely is samplable
-SxRefusalExpected(X, dim) ==
+\* Integrality.  With the user rows appended (and z as one more column) the constraint matrix is still a
+\* directed-graph incidence matrix -- entries in {-1, 0, 1}, at most one +1 and at most one -1 per
+\* column -- hence totally unimodular: the polytope is integral, its dimension is the dimension of its
+\* integer points.  Otherwise the lattice dimension is only a lower bound.
+ColEntries(X, r) == [m \in MIdx(X.M) |-> X.M.S[r][m]] \o [i \in 1..Len(X.U) |-> X.U[i].coef[r]]
+ZEntries(X) == [i \in 1..Len(X.U) |-> X.U[i].zc]
+IncidenceColumn(e) ==
+  /\ \A k \in 1..Len(e) : e[k] \in {-1, 0, 1}
+  /\ Cardinality({k \in 1..Len(e) : e[k] = 1}) <= 1
+  /\ Cardinality({k \in 1..Len(e) : e[k] = -1}) <= 1
+SxIntegral(X) == /\ \A r \in RIdx(X.M) : IncidenceColumn(ColEntries(X, r))
+                 /\ IncidenceColumn(ZEntries(X))
+\* the all-zero flux vector is a point of the polytope (L = SxLattice(X))
+SxOriginFeasible(X, L) == [r \in RIdx(X.M) |-> 0] \in L
+\* Documented refusals (ValueError): the flux space is a single point; or it is a segment ("only 2 search
+\* directions") of an inhomogeneous problem, i.e. one whose flux space does not contain the origin.
+\* "yes": the refusal is the documented outcome;  "no": the flux space surely is samplable;
+\* "edge": not decided on the lattice
+SxRefusalExpected(X, L, dim) ==
   IF dim = 2 THEN "no"
   ELSE IF ~SxIntegral(X) THEN "edge"
   ELSE IF dim = 0 THEN "yes"
-  ELSE IF SxHomogeneous(X) THEN "no" ELSE "yes"
+  ELSE IF SxOriginFeasible(X, L) THEN "no" ELSE "yes"
 
 SxInScope(X) == AllFinite(X.M) /\ BoundsOrdered(X.M) /\ SxLattice(X) # {}
 =============================================================================
